@@ -1813,6 +1813,10 @@ impl<'data, P: Platform> SymbolLoader<'data, P> for RegularObjectSymbolLoader<'_
     }
 
     fn should_downgrade_to_local(&self, name: &PreHashed<UnversionedSymbolName>) -> bool {
+        // Symbols from archives named by --exclude-libs are treated as hidden.
+        if self.archive_semantics && !self.args.should_export_dynamic(self.lib_name) {
+            return true;
+        }
         match self.version_script {
             // We first downgrade all symbols when using a Rust version script.
             // We're gonna set the ones that are exported back to global later.
